@@ -19,14 +19,14 @@ struct vh_opts O;
 #define MAX_COUNTERS 384
 #define NAME_LEN 64
 #define MAX_VIOL 64
-#define VIOL_DESC 4096
+#define VIOL_DESC 131072
 #define VIOL_MSG 2048
 #define MAX_SAMPLES 12
 #define SAMPLE_DESC 160
 #define SAMPLE_TEXT 400
 #define HSET_BITS 21
 #define HSET_CAP (1u << HSET_BITS)
-#define CRUMB_MAX 8192
+#define CRUMB_MAX 131072
 #define MAX_NOTES 24
 
 struct viol {
@@ -527,6 +527,7 @@ static int merge_hashes(int argc, char** argv) {
   for (size_t i = 0; i < n; i++)
     if (i == 0 || all[i] != all[i - 1]) u++;
   printf("%zu\n", u);
+  free(all);
   return 0;
 }
 
